@@ -40,7 +40,7 @@ THEOREMS = ['C03_unify_gen_restores', 'C03_unify_gen_close_restores', 'C03_unify
             'C03_machine_refines_nquery', 'C03_machine_refines_nquery_fuel', 'C03_world_query_restores', 'C03_pyrows_realizes', 'C03_raising_predicate_realized',
             'C03_machine_exception_passthrough', 'C03_machine_refines_nqueryE',
             'C03_findall_copy_raise_restores', 'C03_findall_copy_raise_bounded_restores', 'C03_findall_copy_raise_step',
-            'C03_delayed_close_commutes', 'C03_close_order_irrelevant']
+            'C03_delayed_close_commutes', 'C03_close_order_irrelevant', 'C03_close_must_be_forwarded', 'C03_forwarded_close_releases']
 RULE = ("kind 'gen': non-trivial if the generator bound >= 2 cells or ran under >= 1 stacked unification, and the "
         "operation sequence abandons it at a yield (close/del after a yielding next) or resumes it. "
         "kind 'sched': non-trivial if some generator is started later than directly after its creation and >= 2 cells get bound. "
